@@ -372,7 +372,11 @@ func judgeCLI(k *CLICase, res cliResult, want []*model.Value) string {
 		}
 		return "the process crashed: " + first
 	}
-	if res.exit != 0 {
+	// Valid input has to be processed successfully (status 0). For invalid input the property asks for a
+	// report entry instead of a crash: a tool may well tell its caller through the exit status that the
+	// report is not empty, so only the statuses of a crash count (2 is how a Go program dies of a panic or
+	// a fatal error, -1 and 128+n are a signal).
+	if res.exit != 0 && (!k.Invalid || res.exit == 2 || res.exit < 0 || res.exit > 128) {
 		return fmt.Sprintf("abnormal exit status %d", res.exit)
 	}
 	if k.Invalid {
